@@ -50,6 +50,9 @@ JudgeMsg(e) ==
              <<"hash-cached", e.hc = want>>,
              <<"norm", NormOK(T, I, 1, e.hn)>>,
              <<"norm-cached", NormOK(T, I, 1, e.hnc)>>,
+             \* the same message through a decoder that has a library resolver: still the message standing in the cell
+             <<"hash-resolver", ("hr" \in DOMAIN e) => e.hr = want>>,
+             <<"norm-resolver", ("hnr" \in DOMAIN e) => NormOK(T, I, 1, e.hnr)>>,
              <<"note", AnycastNote(T, 1, e.hn)>> >>)
 
 \* ------------------------------------------------------------------ Pair
@@ -91,6 +94,9 @@ JudgeTx(e) ==
         <<"tx-hash-cached-again", ("hc2" \in DOMAIN e) => e.hc2 = Hex(want)>>,
         <<"boc", e.full => (e.bocerr = "" /\ BocOK(e.boc, want))>>,
         <<"boc-cached", e.full => BocOK(e.bocc, want)>>,
+        \* SourceBoc asked again after the caller overwrote the bytes it was given the first time
+        <<"boc-again", (e.full /\ "boc2" \in DOMAIN e) => BocOK(e.boc2, want)>>,
+        <<"boc-cached-again", (e.full /\ "bocc2" \in DOMAIN e) => BocOK(e.bocc2, want)>>,
         <<"in-present", (e.full /\ tp.ok) => (e.im.p = tp.hasIn /\ e.im.pc = tp.hasIn)>>,
         <<"in-hash", (e.full /\ tp.ok /\ tp.hasIn /\ e.im.p /\ e.im.pc) =>
                         e.im.h = Hex(ReprHash(I[tp.inIdx]))>>,
